@@ -88,6 +88,7 @@ func (gsvd *GSVD) Factorize(a, b Matrix, kind GSVDKind) (ok bool) {
 	p, c := b.Dims()
 	gsvd.p = p
 	if gsvd.c != c {
+		gsvd.r = 0
 		panic(ErrShape)
 	}
 	jobU, jobV, jobQ := lapack.GSVDNone, lapack.GSVDNone, lapack.GSVDNone
@@ -145,6 +146,8 @@ func (gsvd *GSVD) Factorize(a, b Matrix, kind GSVDKind) (ok bool) {
 		gsvd.a = aCopy.mat
 		gsvd.b = bCopy.mat
 		gsvd.kind = kind
+	} else {
+		gsvd.r = 0
 	}
 	return ok
 }
